@@ -146,3 +146,7 @@ func projBlock(b *types.Block) proj {
 	}
 	return proj{"Header": projHeader(b.Header), "Transactions": proj{"nil": b.Transactions == nil, "l": txs}}
 }
+
+func projMember(m *types.Member) proj {
+	return proj{"Id": pBytes(m.Id), "PubKey": pBytes(m.PubKey)}
+}
